@@ -10,6 +10,7 @@ type gen struct {
 	rng   *core.Rand
 	prof  Profile
 	admOn bool // the current history has the admin endpoint enabled
+	unix  bool // the current history uses the unix socket
 }
 
 func (g *gen) mods(max int) []Mod {
@@ -24,6 +25,12 @@ func (g *gen) mods(max int) []Mod {
 func (g *gen) listen(used map[int]bool, max int) []int {
 	n := g.rng.Intn(max + 1)
 	var out []int
+	if g.unix && max > 0 && g.rng.Chance(1, 2) && !used[NAddr] {
+		// the unix socket, in one of its three spellings, FIRST: it is bound before a later
+		// listener of the same app can fail
+		used[NAddr] = true
+		out = append(out, NAddr+g.rng.Intn(3))
+	}
 	for i := 0; i < n; i++ {
 		a := g.rng.Intn(6)
 		if used[a] && !g.rng.Chance(1, 8) { // mostly distinct addresses; sometimes two apps share one
@@ -116,10 +123,10 @@ func (g *gen) inject(c *Cfg, e *Env) {
 			if a.IsHTTP() {
 				if g.rng.Chance(2, 5) && len(a.Listen) > 0 {
 					a.Fault = 6 // certificate management cannot be started once every listener is up
-				} else if g.rng.Chance(1, 2) || len(a.Listen) == 0 {
+				} else if g.rng.Chance(1, 2) || len(a.Listen) == 0 || a.Listen[len(a.Listen)-1] >= NAddr {
 					a.Fault = 2
 				} else {
-					a.Listen = append(a.Listen, a.Listen[0]) // repeated address: HTTP app's Validate fails
+					a.Listen = append(a.Listen, a.Listen[len(a.Listen)-1]) // repeated address: HTTP app's Validate fails
 					if len(a.Listen) > 4 {
 						a.Listen = a.Listen[len(a.Listen)-4:]
 					}
@@ -148,7 +155,11 @@ func (g *gen) inject(c *Cfg, e *Env) {
 		case 6, 7: // a listener cannot bind
 			var all []int
 			for _, a := range c.Apps {
-				all = append(all, a.Listen...)
+				for _, ad := range a.Listen {
+					if ad < NAddr { // only a TCP address can be held by somebody else
+						all = append(all, ad)
+					}
+				}
 			}
 			if len(all) == 0 {
 				continue
@@ -190,6 +201,7 @@ func (g *gen) history(maxLen int) []Op {
 		n = 2
 	}
 	g.admOn = g.rng.Chance(1, 4)
+	g.unix = g.rng.Chance(1, 3)
 	var ops []Op
 	var last *Cfg
 	for i := 0; i < n; i++ {
@@ -231,7 +243,7 @@ func (g *gen) history(maxLen int) []Op {
 				nc := cloneCfg(*last)
 				j := g.rng.Intn(len(nc.Apps))
 				one := Cfg{Apps: []App{{Name: nc.Apps[j].Name, Tag: (i+1)*4 + nc.Apps[j].Name}}}
-				used := map[int]bool{}
+				used := map[int]bool{NAddr: true} // a partial change does not introduce the unix socket
 				one.Apps[0].Listen = g.listen(used, 3)
 				one.Apps[0].Mods = g.mods(2)
 				if g.rng.Chance(1, 2) {
@@ -387,5 +399,35 @@ func (g *gen) enumerated() [][]Op {
 	c.Apps[2].Listen = []int{2, 6, 2}
 	add(c, Env{})
 	add(next(), Env{Post: true})
+	// the unix socket under its three spellings (no bits, |0600, |0660): a running config serves it
+	// under spelling v; a config naming it under spelling w is rejected AFTER it has bound it (a
+	// later listener cannot bind / certificate management cannot start / post-start step fails);
+	// then one naming it under w is accepted; Stop. For the HTTP app and for a probe app.
+	for _, k := range []int{3, 0} {
+		for v := NAddr; v < NTok; v++ {
+			for w := NAddr; w < NTok; w++ {
+				run := Cfg{Apps: []App{{Name: k, Tag: 1, Listen: []int{v, 0}}}}
+				ok := Cfg{Apps: []App{{Name: k, Tag: 3, Listen: []int{w, 2}}}}
+				late := func(c Cfg, e Env) {
+					out = append(out, []Op{
+						{Kind: 'L', Cfg: cloneCfg(run), Env: Env{Force: true}},
+						{Kind: 'L', Cfg: c, Env: e},
+						{Kind: 'L', Cfg: cloneCfg(ok), Env: Env{Force: true}},
+						{Kind: 'S'},
+					})
+				}
+				late(Cfg{Apps: []App{{Name: k, Tag: 2, Listen: []int{w, 1}}}}, Env{Force: true, Blocked: []int{1}})
+				if v == w {
+					continue
+				}
+				late(Cfg{Apps: []App{{Name: k, Tag: 2, Listen: []int{w, 1}}}}, Env{Force: true, Post: true})
+				if k == 3 {
+					late(Cfg{Apps: []App{{Name: k, Tag: 2, Fault: 6, Listen: []int{w}}}}, Env{Force: true})
+				} else {
+					late(Cfg{Apps: []App{{Name: k, Tag: 2, Listen: []int{w}}, {Name: 1, Tag: 4, Fault: 5}}}, Env{Force: true})
+				}
+			}
+		}
+	}
 	return out
 }
